@@ -6,6 +6,21 @@ from .. import core
 
 PROPS = {}
 
+# rules of S that no generated line can make fire FIRST, and why (reported in the evidence next to rules_never_first)
+UNREACHABLE_RULES = {
+    "header.proposer_out_of_range": "after header.wrong_proposer passed, block.proposer_index is get_beacon_proposer_index(state), an element of the registry",
+    "block.no_execution_payload": "a block of the state's fork always has the part (other forks are rejected by block.container_of_other_fork first)",
+    "block.no_sync_aggregate": "as block.no_execution_payload",
+    "payload.state_has_no_header": "a bellatrix+ state always has a latest_execution_payload_header",
+    "sync_aggregate.no_committee": "an altair+ state always has a current sync committee",
+    "sync_aggregate.bits_length": "ssz.sync_bitvector_length (the SSZ type check) fires first",
+    "ssz.sync_bitvector_padding": "SYNC_COMMITTEE_SIZE is a multiple of 8 in every preset in use: no padding bits exist",
+    "slash_validator.withdrawable_epoch": "uint64 overflow of epoch + EPOCHS_PER_SLASHINGS_VECTOR: unreachable magnitudes",
+    "withdrawals.balance_index": "needs a state with fewer balances than validators (not a BeaconState the transition can produce)",
+    "limits.transactions": "2^20+1 transactions: enforced by SSZ decoding and by CheckLimits; not generated for size",
+    "limits.transaction_bytes": "a transaction of more than 2^30 bytes: enforced by SSZ decoding only; not generated for size",
+}
+
 
 def _first_rule_stats(ctx):
     """Per rejection rule of S: how many mutants S rejected BY THAT RULE FIRST (zmodel blockwhy on the same op lines)."""
@@ -38,7 +53,8 @@ def _first_rule_stats(ctx):
         declared |= set(re.findall(r'"([a-z_0-9]+\.[a-z_0-9]+)"', src))
     fired = set(r.replace("_out_of_range_out_of_range", "_out_of_range") for r in rules)
     never = sorted(d for d in declared if d not in fired)
-    return dict(rules_declared_in_S=len(declared), rules_never_first=never, rejections_by_first_rule=dict(sorted(rules.items(), key=lambda kv: (-kv[1], kv[0]))),
+    return dict(rules_declared_in_S=len(declared), rules_never_first=never,
+                rules_never_first_explained={r: UNREACHABLE_RULES.get(r, "reachable: not hit by this run's sample") for r in never}, rejections_by_first_rule=dict(sorted(rules.items(), key=lambda kv: (-kv[1], kv[0]))),
                 rules_that_fired_first=len(rules),
                 mutants_accepted_by_spec_and_code=accepted_by_both,
                 go_outcomes=dict(go_out))
